@@ -635,7 +635,7 @@ func zvAllPool(pools map[string][]*zpol) []*zpol {
 
 func zvPartC(m *zmon, rng *core.Rand, pools map[string][]*zpol) {
 	all := zvAllPool(pools)
-	n := core.N(1500, 25000)
+	n := core.N(1500, 60000)
 	base := rng.Fork(0xC)
 	seeds := make([]uint64, n)
 	for i := range seeds {
